@@ -91,18 +91,24 @@ def binop(op, a, b, bits, signed):
         return True, wrap(r, bits, signed)
     if op in ("/", "%"):
         if sym:
-            x, y = to_bv(a, bits), to_bv(b, bits)
-            if signed:
-                defined = b != 0
-                if op == "/":
+            # sign-magnitude definition (the one SMT-LIB gives for bvsdiv/bvsrem, and C11 6.5.5):
+            # divide the magnitudes as n-bit unsigned numbers (|MIN| = 2**(n-1) fits n bits),
+            # quotient negative iff the signs differ, remainder takes the sign of the dividend
+            # (on the magnitudes, which are non-negative mathematical integers, // and % are the
+            # ordinary Euclidean quotient and remainder; the divisor is replaced by 1 where the
+            # operation is undefined so that no case split on "divisor == 0" is needed here)
+            defined = b != 0
+            ma = abs(a)
+            mb = abs(ite(defined, b, 1))
+            if type(mb) is SymInt and mb.lo < 1:
+                mb = SymInt(mb.e, 1, mb.hi)        # |b'| >= 1 by construction: tell the interval tracker
+            if op == "/":
+                if signed:
                     defined = sym_and(defined, sym_not(sym_and(a == lo, b == -1)))
-                    r = x / y                      # bvsdiv: truncating
-                else:
-                    r = z3.SRem(x, y)              # bvsrem: sign follows the dividend
-            else:
-                defined = b != 0
-                r = z3.UDiv(x, y) if op == "/" else z3.URem(x, y)
-            return defined, from_bv(r, signed)
+                q = ma // mb
+                return defined, ite((a < 0) != (b < 0), -q, q)
+            r = ma % mb
+            return defined, ite(a < 0, -r, r)
         if b == 0:
             return False, 0
         q, r = _trunc_divmod(a, b)
